@@ -18,11 +18,11 @@ def C18(chk):
     mc = run_mc("MC_Codepoints", cfg, "c18", workers=4)
     if mc.res.violated:
         return spec_violation(chk, mc, "MC_Codepoints")
-    replay(chk, mc, "MC_Codepoints(W=%d)" % w)
+    replay(chk, mc, "MC_Codepoints(W=%d)" % w, harness_args=["--window", str(w)])
     chk.cov["exhaustive"] = True
     chk.cov["rule"] = ("every entry (single, range start<=end) x every code point of a window of %d values: the 12 hand-written "
                        "operators; every sorted table over the window x every code point: binary search; each replayed against "
-                       "precis_core::Codepoints at 5 bases of the u32 range (0, 0x7a, 0x10FFFA, 2^31-4, u32::MAX-6). "
+                       "precis_core::Codepoints at 5 bases of the u32 range (0, 0x7a, 0x10FFFA, 2^31-4, u32::MAX-(W-1)) and, for code points outside the entry, with entry and code point >= 2^31 apart. "
                        "non-trivial = distinct (entry, cp) pairs plus tables with more than one entry" % w)
     chk.assumptions += ["an order-only definition is decided by a window containing every relative position of cp to start<=end",
                         "TLC, JVM, rustc"]
